@@ -79,6 +79,7 @@ type wWorld struct {
 	Bidi    bool     `json:"bidi"`
 	FDSet   bool     `json:"fdset"` // entry point ProcessFileDescriptorSet* (harness only; targets are then empty)
 	Probes  []string `json:"probes"`  // C02: names to look up
+	Walks   []walkJ  `json:"walks"`   // C07: start nodes and visitor policies
 }
 
 type ref struct {
